@@ -333,44 +333,41 @@ def nextRound (s : State) : State := { s with round := s.round + 1 }
 
 /-! ### the DKG transactions -/
 
-/-- `contributeMpk` from `sender` with an MPK of `size` entries; `payloadId` is the `ID` field of the payload when it
-carries one (`mpk.Decode(inputData)` overwrites the `ID` preset to the sender). -/
-def contributeMpk (s : State) (sender : Nat) (size : Nat) (payloadId : Option Nat) : Except Err State :=
+/-- `contributeMpk` from `sender` with an MPK of `size` entries. `payloadId` is the `ID` field of the payload when it
+carries one: it is ignored — `mpk.ID = t.ClientID` is set after `mpk.Decode(inputData)` (commit 156160f; before it the
+payload's id replaced the sender as the key). -/
+def contributeMpk (s : State) (sender : Nat) (size : Nat) (_payloadId : Option Nat) : Except Err State :=
   if (getPhaseNode s).phase ≠ pContribute then .error .phase
   else if !(ids s.dkg.nodes).contains sender then .error .notMember
   else if (size : Int) ≠ s.dkg.t then .error .size
   else
     let mpks := s.mpks.getD []
-    let key := payloadId.getD sender
-    if mpks.contains key then .error .dup
-    else .ok { s with mpks := some (mpks ++ [key]) }
+    if mpks.contains sender then .error .dup
+    else .ok { s with mpks := some (mpks ++ [sender]) }
 
-inductive SosRes where
-  | ok (s : State)
-  | error (e : Err)
-  /-- nil dereference in `ShareOrSigns.Validate` (chaincore/block/sos.go:65, `mpks.Mpks[sos.ID].Mpk` with no MPK under
-  the payload's id), in the goroutine `Chain.ExecuteSmartContract` starts: the process dies. -/
-  | crash
-
-/-- `shareSignsOrShares` from `sender`: `count` share entries taken from the DKG registered under the payload's id
-`owner`; `valid` = what `ShareOrSigns.Validate` answers for them when that MPK exists. -/
-def shareSignsOrShares (s : State) (sender : Nat) (count : Nat) (valid : Bool) (owner : Nat) : SosRes :=
+/-- `shareSignsOrShares` from `sender` with `count` share entries; `valid` = what `ShareOrSigns.Validate` answers for
+them against the MPK stored under the sender's id, when that MPK exists (`sos.ID = t.ClientID` is set before `Validate`,
+and `Validate` refuses entries when `mpks.Mpks[sos.ID]` is missing: commit 2f3cfcd; before it the payload's id was used
+and a missing MPK was a nil dereference that ended the process). The sender must be in the DKG miners list. -/
+def shareSignsOrShares (s : State) (sender : Nat) (count : Nat) (valid : Bool) : Except Err State :=
   if (getPhaseNode s).phase ≠ pPublish then .error .phase
   else
     let gsos := s.gsos.getD []
     if gsos.contains sender then .error .dup
+    else if !(ids s.dkg.nodes).contains sender then .error .notMember
     else if (count : Int) < s.dkg.k - 1 then .error .few
     else
       match s.mpks with
       | none => .error .other
       | some mpks =>
-        if count ≥ 1 ∧ !mpks.contains owner then .crash
+        if count ≥ 1 ∧ !mpks.contains sender then .error .invalid
         else if !valid then .error .invalid
         else .ok { s with gsos := some (gsos ++ [sender]) }
 
-/-- `wait` from `sender`. -/
+/-- `wait` from `sender`: only a member of the DKG miners list is accepted (commit 0a444b0). -/
 def wait (s : State) (sender : Nat) : Except Err State :=
   if (getPhaseNode s).phase ≠ pWait then .error .phase
+  else if !(ids s.dkg.nodes).contains sender then .error .notMember
   else if s.dkg.waited.contains sender then .error .dup
   else .ok { s with dkg := { s.dkg with waited := s.dkg.waited ++ [sender] } }
 
